@@ -561,7 +561,9 @@ func (s *state) addConnHandler(
 	h := sha256.New()
 
 	fds := make(map[string]*descriptorpb.FileDescriptorProto)
+	served := make(map[string]bool) // the services the back-end says it serves
 	for _, svc := range r.GetListServicesResponse().GetService() {
+		served[svc.GetName()] = true
 		if err := stream.Send(&rpb.ServerReflectionRequest{
 			MessageRequest: &rpb.ServerReflectionRequest_FileContainingSymbol{
 				FileContainingSymbol: svc.GetName(),
@@ -614,7 +616,7 @@ func (s *state) addConnHandler(
 			return err
 		}
 
-		hs, err := s.processFile(opts, cc, file)
+		hs, err := s.processFile(opts, cc, file, served)
 		if err != nil {
 			return err
 		}
@@ -786,12 +788,15 @@ func createConnHandler(
 	}
 }
 
-func (s *state) processFile(opts muxOptions, cc *grpc.ClientConn, fd protoreflect.FileDescriptor) ([]*handler, error) {
+func (s *state) processFile(opts muxOptions, cc *grpc.ClientConn, fd protoreflect.FileDescriptor, served map[string]bool) ([]*handler, error) {
 	var handlers []*handler
 
 	sds := fd.Services()
 	for i := 0; i < sds.Len(); i++ {
 		sd := sds.Get(i)
+		if !served[string(sd.FullName())] {
+			continue // declared in a file the back-end sent, but not served by it
+		}
 
 		mds := sd.Methods()
 		for j := 0; j < mds.Len(); j++ {
